@@ -1,15 +1,18 @@
 """C43 — configuration options round-trip through their text form."""
+import re
 from traces import *
 import strtab, C16
 
-TECHNIQUE = 'static analysis: key/field agreement of set / visit / reset extracted from MIR (string-literal arms, format templates, field tags); exhaustive Display/FromStr round trip of leaf option enums'
+TECHNIQUE = 'static analysis: key/field agreement of set / visit / reset extracted from MIR (string-literal arms, format templates, field tags); exhaustive Display/FromStr round trip of leaf option enums; ordered-trace path rule (A2): no fallible step after a write to self in any set() entry point'
 EXPLANATION = ('(a) For every impl of ConfigField on a namespace struct (macro-generated and hand-written): the set of keys accepted by '
                'set, the set of keys reported by visit (decoded from the format_args templates) and the set accepted by reset are '
                'equal, and each key reads/writes the same struct field in all three. (b) For every leaf option enum with its own '
                'FromStr and Display (SpillCompression, CompressionTypeVariant, CsvQuoteStyle, MapKeyDedupPolicy, ExplainFormat, '
                'MetricType, MetricCategory, ConfigDurationFormat, DFParquetWriterVersion, JoinType): from_str(display(v)) = Ok(v) for '
                'every variant; table-driven impls (Dialect) are listed as undecided, not claimed. (c) set() with an unknown key returns '
-               'an error without touching any field. Numeric parsing and SET/SHOW plumbing are not decided.')
+               'an error without touching any field. (d) set-atomic: in every set(&mut self, key, value) -> Result of the configuration module, once self has been '
+               'written (assignment rooted at self, or an Option/container mutator on it) the function neither returns Err nor returns the Result of a later '
+               'call (an invalid value is rejected without changing any option). Numeric parsing and SET/SHOW plumbing are not decided.')
 ASSUMPTIONS = ['format_args! template encoding of the analysed toolchain (literal pieces are stored verbatim)']
 
 CF = 'datafusion_common::config::ConfigField'
@@ -166,6 +169,65 @@ def invalid_text_not_defaulted(ctx, f, in_scope, rule='invalid-text-not-defaulte
                             ctx.ok(rule, inst, sample={'site': c, 'parser': k, 'fate': sorted(fates)} if n <= 5 else None)
     return n
 
+SELF_MUT = ('get_or_insert_with', 'get_or_insert', 'get_or_insert_default', 'insert', 'or_default', 'or_insert', 'or_insert_with', 'push', 'push_str',
+            'extend', 'clear', 'remove', 'take', 'replace', 'truncate', 'retain', 'append')
+
+
+def rooted_at_self(t):
+    return bool(t) and (t == 'self' or t.startswith('self.') or re.match(r'^call:(entry|get_mut|as_mut|deref_mut)@\d+\(self[,.)]', t) is not None)
+
+
+def set_atomic(ctx, facts, in_scope, rule='set-atomic'):
+    """(d) 'an invalid value is rejected without changing any option': in every `set(&mut self, key, value) -> Result` of the configuration
+    module, once `self` has been written (an assignment rooted at self, or a std container/Option mutator on it) the function can no
+    longer fail: it neither returns Err nor returns the Result of a later call"""
+    import re as _re
+    n = 0
+    bad = 0
+    for d, i, e in sorted(facts.all_fn_entries()):
+        if not in_scope(d, e) or not e[8] or len(e[8]) < 4 or '{closure' in d or d.rsplit('::', 1)[-1] != 'set' or not e[8][1].startswith('&mut'):
+            continue
+        if 'Result<' not in e[8][0]:
+            continue
+        rec = facts.fn(d, i)
+        try:
+            outs = run_traces(facts, rec, [MR(-1, 0, (), sym('self')), R(sym('key')), R(sym('value'))][:rec['argc']], inline_depth=0, time_budget=20,
+                              budget=400000, try_tags=True)
+        except Undecidable as ex:
+            ctx.undecided(rule, d, str(ex))
+            bad += 1
+            continue
+        ctx.analysed_fns.add(d)
+        n += 1
+        viol = None
+        nmut = 0
+        for o in outs:
+            m = None
+            for k, ev in enumerate(o.events):
+                if ev[0] == 'assign' and rooted_at_self(str(ev[1])):
+                    m = m or (k, 'assignment to %s' % str(ev[1])[:40], ev[3] if len(ev) > 3 else 0)
+                elif (ev[0] == 'callargs' and ev[2] and ev[1].rsplit('::', 1)[-1] in SELF_MUT and
+                      ev[1].startswith(('core::', 'alloc::', 'std::', '<core', '<alloc', '<std', 'hashbrown')) and rooted_at_self(tag_of(ev[2][0]) or '')):
+                    m = m or (k, ev[1].rsplit('::', 1)[-1], ev[3])
+            if not m:
+                continue
+            nmut += 1
+            r = strip(o.ret)
+            if isinstance(r, A) and r.name == 'Err':
+                viol = viol or (m, 'returns an error')
+            elif isinstance(r, U) and r.tag and _re.match(r'^call:[A-Za-z_0-9]+@', r.tag):
+                later = ['call:%s@%s' % (ev[1].rsplit('::', 1)[-1], ev[3]) for ev in o.events[m[0] + 1:] if ev[0] == 'callargs']
+                if norm_tag(r.tag) in later:
+                    viol = viol or (m, 'returns the Result of the later call `%s`' % norm_tag(r.tag)[5:].split('@')[0])
+        if viol:
+            bad += 1
+            ctx.fail(rule, d, ctx.loc(rec, viol[0][2] or None), 'self is modified (%s) and afterwards the function %s: an invalid value is rejected with the option already changed'
+                     % (viol[0][1], viol[1]), key='%s|%s' % (rule, d))
+        else:
+            ctx.ok(rule, d, nontrivial=nmut > 0, sample={'set': d, 'paths': len(outs), 'paths_that_write_self': nmut} if nmut else None)
+    return bad, n
+
+
 def run(ctx):
     f = ctx.facts
     n = 0
@@ -196,6 +258,9 @@ def run(ctx):
         else:
             ctx.ok('display-fromstr-roundtrip', a, sample={'enum': a, 'table': {v: s for v, (s, _) in rt.items()}})
     ctx.floor('display-fromstr-roundtrip', 'leaf option enums', m, 9)
+    # (d)
+    sb, sn = set_atomic(ctx, f, lambda d, e: e[7] == 'datafusion_common')
+    ctx.floor('set-atomic', 'set() entry points of the configuration module', sn, 45)
     # selftest
     nt = invalid_text_not_defaulted(ctx, f, lambda c: (c[1:] if c.startswith('<') else c).startswith('datafusion_common::config'))
     ctx.floor('invalid-text-not-defaulted', 'parse sites in the configuration module', nt, 10)
@@ -209,3 +274,7 @@ def run(ctx):
     keys = [v['key'] for v in probe.viol if v['key'].startswith('st-parse|')]
     ctx.selftest('parse rule reports unwrap_or_default on a parse result (bad_transform), accepts the comparison form (good_transform)',
                  any('bad_transform' in x for x in keys) and not any('good_transform' in x for x in keys))
+    sb2, _ = set_atomic(probe, st, lambda d, e: d.startswith('<dfscan_selftest::conf::'), rule='st-set')
+    keys = sorted(v['key'] for v in probe.viol if v['rule'] == 'st-set')
+    ctx.selftest('set-atomic reports the Option slot filled before a fallible inner set (Lazy) and accepts the store-after-success form (Careful) and the leaf parse-then-assign',
+                 keys == ['st-set|<dfscan_selftest::conf::Lazy<F> as dfscan_selftest::conf::Field>::set'])
